@@ -47,14 +47,32 @@ def lineOf (m : Srcmap) (pos : Nat) : Except Panic Nat :=
   | .inl x => .ok x
   | .inr x => if x = 0 then .error .underflow else .ok (x - 1)
 
-/-- `get_source_pos_for`: `self.srcmap[line].1 + (pos - self.srcmap[line].0)` -/
-def getSourcePosFor (m : Srcmap) (pos : Nat) : Except Panic Nat :=
+/-- the affine part of `get_source_pos_for`: `self.srcmap[line].1 + (pos - self.srcmap[line].0)`
+    (the whole function before `fix:` "positions inside the virtual spaces of a split tab"; kept under this
+    name because most range lemmas are about it and `getSourcePosFor_eq_raw` transports them) -/
+def getSourcePosForRaw (m : Srcmap) (pos : Nat) : Except Panic Nat :=
   match lineOf m pos with
   | .error e => .error e
   | .ok line =>
     match m[line]? with
     | none => .error .index
     | some (k, v) => if pos < k then .error .underflow else .ok (v + (pos - k))
+
+/-- `get_source_pos_for`: the affine offset, clamped to the source position of the NEXT table entry
+    (`match self.srcmap.get(line + 1) { Some(next) => offset.min(next.1), None => offset }`): the
+    spaces of a partially consumed tab have no bytes of their own. -/
+def getSourcePosFor (m : Srcmap) (pos : Nat) : Except Panic Nat :=
+  match lineOf m pos with
+  | .error e => .error e
+  | .ok line =>
+    match m[line]? with
+    | none => .error .index
+    | some (k, v) =>
+      if pos < k then .error .underflow
+      else
+        match m[line + 1]? with
+        | some (_, v') => .ok (min (v + (pos - k)) v')
+        | none => .ok (v + (pos - k))
 
 /-- `get_map(start_pos, end_pos)` (always `Some`) -/
 def getMap (m : Srcmap) (startPos endPos : Nat) : Except Panic (Nat × Nat) :=
